@@ -68,8 +68,8 @@ Proof.
   induction f; simpl; intros. inversion H; subst; auto.
   destruct (first_zombie (kids s)) as [[z rest]|]. 2: (inversion H; subst; auto).
   destruct (reexec s =? c_pid z). eapply IHf in H; eauto.
-  destruct (Z.shiftr (status_of z) 8 =? worker_boot_error). inversion H; subst; auto.
-  destruct (Z.shiftr (status_of z) 8 =? app_load_error). inversion H; subst; auto.
+  destruct ((Z.shiftr (status_of z) 8 =? worker_boot_error) && raises _). inversion H; subst; auto.
+  destruct ((Z.shiftr (status_of z) 8 =? app_load_error) && raises _). inversion H; subst; auto.
   eapply IHf in H; eauto. simpl in H. eapply find_wk_remove; eauto.
 Qed.
 
